@@ -10,6 +10,9 @@ from sim import runner, world_pipeline as wp
 
 LEVEL = "fault_enumeration"
 READERS = [("map", "joint-likelihood"), ("consensus", "counts", 0.5), ("topology", None, True)]
+# further readers, applied to every prefix of the short traces and to a stride of the long one
+MORE_READERS = [("map", "frequency"), ("consensus", "joint-likelihood", 0.6), ("cli", "map", "joint-likelihood"), ("cli", "consensus", "counts", 0.5),
+                ("cli", "topology")]
 
 
 def outputs(o):
@@ -34,12 +37,15 @@ def prefix_task(item):
     long = bool(len(item) > 3 and item[3])
     spec, h = make_trace(seed, long=long)
     img = h["image"]
-    full = [outputs(wp.run_summaries(img, rd)) for rd in READERS]
+    readers = READERS + MORE_READERS
+    full = [outputs(wp.run_summaries(img, rd)) for rd in readers]
     problems = []
     stats = {"calls": 0, "raised": 0, "identical": 0, "exc_types": {}}
     for k in range(lo, min(hi, len(img))):
         part = img[:k]
-        for rd, ref in zip(READERS, full):
+        for ri, (rd, ref) in enumerate(zip(readers, full)):
+            if ri >= len(READERS) and long and k % 7 != 0 and k < len(img) - 256:
+                continue  # the extra readers see every 7th prefix (and the last 256) of the long trace
             o = wp.run_summaries(part, rd)
             stats["calls"] += 1
             if not o["ok"]:
@@ -106,6 +112,77 @@ def writer_task(item):
     return {"fired": fired, "problems": problems[:2], "len": len(img)}
 
 
+def rlimit_task(item):
+    """Disk full / process death enforced by the KERNEL, whatever path the writer takes to the file: a forked child sets
+    RLIMIT_FSIZE = k and writes the trace to a real file; with SIGXFSZ ignored every write beyond k bytes fails with EFBIG
+    (disk-full-like OSError), with the default action the child is killed at byte k.  The parent then feeds the durable file
+    to the readers."""
+    import os
+    import resource
+    import signal
+    import tempfile
+
+    seed, ks, long = item
+    import phyclone.process_trace.process_trace as ppt
+
+    spec, h = make_trace(seed, long=long)
+    res = h["results"]
+    problems = []
+    fired = {"rlimit_error": 0, "rlimit_kill": 0}
+    d = tempfile.mkdtemp(prefix="vrl_")
+    try:
+        # the complete stream of this very writer call on this very object (pickle memoisation makes it differ from the run's own)
+        ref_path = os.path.join(d, "ref.pkl.gz")
+        import contextlib
+        import io
+
+        with contextlib.redirect_stdout(io.StringIO()):
+            ppt.create_main_run_output(None, ref_path, {c: dict(v) for c, v in res.items()})
+        full_img = open(ref_path, "rb").read()
+        full = [outputs(wp.run_summaries(full_img, rd)) for rd in READERS]
+        for mode in ("error", "kill"):
+            for k in ks:
+                path = os.path.join(d, "t_%s_%d.pkl.gz" % (mode, k))
+                pid = os.fork()
+                if pid == 0:
+                    code = 3
+                    try:
+                        signal.signal(signal.SIGXFSZ, signal.SIG_IGN if mode == "error" else signal.SIG_DFL)
+                        resource.setrlimit(resource.RLIMIT_FSIZE, (k, k))
+                        devnull = os.open(os.devnull, os.O_WRONLY)
+                        os.dup2(devnull, 1)
+                        try:
+                            ppt.create_main_run_output(None, path, {c: dict(v) for c, v in res.items()})
+                            code = 0  # the writer returned normally
+                        except BaseException:
+                            code = 1  # the writer raised
+                    finally:
+                        os._exit(code)
+                _, status = os.waitpid(pid, 0)
+                killed = os.WIFSIGNALED(status)
+                code = os.WEXITSTATUS(status) if os.WIFEXITED(status) else None
+                durable = open(path, "rb").read() if os.path.exists(path) else b""
+                if len(durable) >= len(full_img) and code == 0:
+                    continue  # the limit was not reached (file fits): nothing injected
+                fired["rlimit_" + mode] += 1
+                if code == 0 and len(durable) < len(full_img):
+                    problems.append(({"sub": "write_fault_reported_success", "fault": "rlimit_" + mode},
+                                     "the kernel refused writes beyond %d bytes, yet the writer returned normally leaving %d of %d bytes" % (k, len(durable), len(full_img)),
+                                     {"seed": seed, "k": k, "mode": mode, "long": long}))
+                for rd, ref in zip(READERS, full):
+                    o = wp.run_summaries(durable, rd)
+                    if o["ok"] and outputs(o) != ref:
+                        problems.append(({"sub": "partial_trace_accepted", "reader": rd[0], "fault": "rlimit_" + mode},
+                                         "%s succeeded on the %d bytes that reached the disk before the %s at %d" % (rd[0], len(durable), mode, k),
+                                         {"seed": seed, "k": k, "mode": mode, "long": long}))
+                os.remove(path) if os.path.exists(path) else None
+    finally:
+        import shutil
+
+        shutil.rmtree(d, ignore_errors=True)
+    return {"fired": fired, "problems": problems[:2]}
+
+
 def failed_worker_task(seed):
     spec = wp.spec_from_seed(seed, boundary=False, chains=2, finite_clock=False)
     spec["options"]["num_iters"] = 2
@@ -162,23 +239,33 @@ def run(ctx):
         ctx.fault("fs.kill@k", out["fired"]["kill"])
         for key, detail, rep in out["problems"]:
             ctx.violation(key, detail, dict(rep, kind="writer", key=key))
+    ritems = []
+    for s in seeds:
+        L = lens[s][0]
+        ritems.append((s, sorted(set([0, 1, 9, 10, 11, 64, L // 3, L // 2, L - 64, L - 12, L - 9, L - 8, L - 1] + list(range(128, L, 1024 if quick else 256)))), s in long_seeds))
+    for out in runner.pmap(rlimit_task, ritems, timeout=1500):
+        ctx.fault("fs.rlimit_error@k", out["fired"]["rlimit_error"])
+        ctx.fault("fs.rlimit_kill@k", out["fired"]["rlimit_kill"])
+        for key, detail, rep in out["problems"]:
+            ctx.violation(key, detail, dict(rep, kind="rlimit", key=key))
     fres = runner.pmap(failed_worker_task, [ctx.sub(("wf", i)) for i in range(6 if quick else 60)])
     for out in fres:
         ctx.fault("sched.worker_fail", out["fired"])
         for key, detail, rep in out["problems"]:
             ctx.violation(key, detail, dict(rep, kind="worker", key=key))
-    ctx.fault("fs.truncate@k", calls // len(READERS))
+    n_prefixes = sum(v[0] for v in lens.values())
+    ctx.fault("fs.truncate@k", n_prefixes)
     ctx.cov["evaluations"] = calls
-    ctx.cov["distinct_nontrivial"] = calls // len(READERS)
+    ctx.cov["distinct_nontrivial"] = n_prefixes
     ctx.cov["exhaustive"] = True
     ctx.cov["reader_calls_that_raised"] = raised
     ctx.cov["reader_calls_identical_to_complete"] = ident
     ctx.cov["reader_exception_types"] = exc_types
     ctx.cov["traces"] = [{"bytes": v[0], "chains": v[1], "entries": v[2], "clustered": v[3]} for v in lens.values()]
     ctx.cov["rule"] = ("for each of %d simulated runs (1-3 chains, 2-9 entries per chain, clustered or not) EVERY prefix length 0..len-1 of the trace "
-                       "image is read by map, consensus and topology-report (with archive): one evaluation = one reader call; distinct = "
+                       "image is read by map, consensus and topology-report (with archive), in both modes each and through the click commands: one evaluation = one reader call; distinct = "
                        "distinct (trace, prefix length) crash points; the write itself is cut by ENOSPC and by process death at all offsets in "
-                       "the first and last 64 bytes and every %d bytes; plus runs whose chain worker dies" % (n_traces, 256 if quick else 64))
+                       "the first and last 64 bytes and every %d bytes, and once more by the kernel itself (RLIMIT_FSIZE in a forked child: EFBIG or death by SIGXFSZ) whatever path the writer takes to the file; plus runs whose chain worker dies" % (n_traces, 256 if quick else 64))
     ctx.sample({"trace_bytes": list(lens.values())[0][0], "prefix": 17, "readers": [list(r) for r in READERS]})
     ctx.cov["components"] = {"real": ["process_trace.create_main_run_output", "write_map_results", "write_consensus_results", "write_topology_report",
                                       "gzip/pickle from the standard library"],
@@ -192,6 +279,8 @@ def replay(ctx, obj):
         out = prefix_task((obj["seed"], obj["k"], obj["k"] + 1, obj.get("long", False)))
     elif obj["kind"] == "writer":
         out = writer_task((obj["seed"], [obj["k"]], obj.get("long", False)))
+    elif obj["kind"] == "rlimit":
+        out = rlimit_task((obj["seed"], [obj["k"]], obj.get("long", False)))
     else:
         out = failed_worker_task(obj["seed"])
     for key, detail, rep in out["problems"]:
